@@ -270,3 +270,40 @@ func SortedRotate(keys []string) []int {
 	}
 	return idx
 }
+
+// MapKeys returns the keys of a Go map in a run-determined order: sorted by
+// printed form, then rotated by a recorded random number. simgen rewrites
+// `for k, v := range m` over maps into a loop over MapKeys(m), so that the
+// iteration order is a seeded, replayable choice instead of the runtime's
+// per-process hash seed.
+func MapKeys[M ~map[K]V, K comparable, V any](m M) []K {
+	keys := make([]K, 0, len(m))
+	strs := make([]string, 0, len(m))
+	for k := range m {
+		keys = append(keys, k)
+		strs = append(strs, fmt.Sprint(k))
+	}
+	idx := SortedRotate(strs)
+	out := make([]K, len(keys))
+	for i, j := range idx {
+		out[i] = keys[j]
+	}
+	return out
+}
+
+// Pair is one map entry.
+type Pair[K comparable, V any] struct {
+	K K
+	V V
+}
+
+// MapPairs snapshots a map in MapKeys order (used when the ranged expression
+// may have side effects and therefore must be evaluated once).
+func MapPairs[M ~map[K]V, K comparable, V any](m M) []Pair[K, V] {
+	keys := MapKeys(m)
+	out := make([]Pair[K, V], len(keys))
+	for i, k := range keys {
+		out[i] = Pair[K, V]{k, m[k]}
+	}
+	return out
+}
